@@ -317,6 +317,35 @@ def build_c10_corpus(want=120, seed=20260921):
     cleanup_streams()
     return len(keep), tried
 
+def extend_c10_corpus(names, want=60, seed=20260922):
+    """(development tool) add further streams (e.g. libaom-encoded ones) and corrupted-transport cases over them which the current tree survives"""
+    import random as _r
+    core.build('asan'); core.build('plain'); rng = _r.Random(seed)
+    with open(os.path.join(CORPUS_DIR, 'cases.json')) as f: corp = json.load(f)
+    meta = corp['streams']; st = make_streams(names); added = []
+    for nm, s in st.items():
+        with open(s['path'], 'rb') as f: data = f.read()
+        with open(os.path.join(CORPUS_DIR, nm + '.tu'), 'wb') as f: f.write(data)
+        meta[nm] = {'w': s['w'], 'h': s['h'], 'bd': s['bd'], 'n': s['n']}
+    keep = []; tried = 0
+    while len(keep) < want and tried < want * 15:
+        batch = []
+        for _ in range(60):
+            nm = rng.choice(sorted(st)); sizes = tu_sizes(os.path.join(CORPUS_DIR, nm + '.tu'))
+            if rng.random() < 0.15:
+                nm2 = rng.choice([x for x in meta if x != nm and meta[x]['bd'] == meta[nm]['bd']]); batch.append({'stream': nm, 'transport': [{'kind': 'concat', 'stream2': nm2, 'keep': rng.randint(1, len(sizes))}], 'annexb': 0})
+            else:
+                batch.append({'stream': nm, 'transport': transport_ops(rng, len(sizes), sizes), 'annexb': 0})
+        cases = [corpus_case(b, meta) for b in batch]
+        rs = pmap(lambda c: run_case(c, 'asan'), cases, variant='asan'); tried += len(batch)
+        for b, c, r in zip(batch, cases, rs):
+            if r.get('outcome') == 'ok' and not r.get('ubsan') and len(keep) < want:
+                b['expect_pictures'] = r.get('npictures'); keep.append(b)
+    corp['cases'] += keep; corp['tried'] = corp.get('tried', 0) + tried
+    with open(os.path.join(CORPUS_DIR, 'cases.json'), 'w') as f: json.dump(corp, f, indent=0)
+    cleanup_streams()
+    return len(keep), tried
+
 def corpus_case(b, meta):
     m = meta[b['stream']]; w, h = m['w'], m['h']; ops = []
     for o in b['transport']:
@@ -338,7 +367,7 @@ def check_c10(tier, seed):
     variant = 'asan'; core.build(variant); core.build('plain'); rng = ck.rng
     with open(os.path.join(CORPUS_DIR, 'cases.json')) as f:
         corp = json.load(f)
-    cb = corp['cases'] if tier != 'quick' else corp['cases'][:70]
+    cb = corp['cases']
     cases = [corpus_case(b, corp['streams']) for b in cb]
     # exact-size input buffers keep demonstrating the bit reader's look-ahead (recorded finding)
     ex = corpus_case({'stream': 'base8', 'transport': []}, corp['streams']); ex['exact_input'] = 1; ex['_corpus'] = 0; ex['_explore'] = 0; cases.append(ex)
@@ -348,7 +377,7 @@ def check_c10(tier, seed):
     while True:
         for nm, s in st.items():
             sizes = tu_sizes(s['path'])
-            for k in range(8 if tier == 'quick' else 60):
+            for k in range(25 if tier == 'quick' else 60):
                 cases.append(dec_case(s, 1, transport=transport_ops(rng, len(sizes), sizes), extra={'_stream': nm, 'annexb': 1 if rng.random() < 0.05 else 0, 'wall_timeout': 40, '_explore': 1}))
         rs = pmap(lambda c: run_case(c, variant), cases, variant=variant)
         for c, r in zip(cases, rs):
@@ -449,7 +478,7 @@ def check_c14(tier, seed):
         pos = 0 if op == 'init_handle' else (rng.randint(4, idx) if op not in ('set_param', 'init') else rng.choice([1, 2]))
         p.insert(pos, {'op': op, 'null': nul, 'max': 1})
         c = mk(ck, cfg, {'kind': 'mix', 'seed': 3}, 2, (64, 64), oracles={'decode': 0, 'parse': 0, 'order': 0}); c['program'] = p; c['_gen'] = None; cases.append(c)
-    for k in range(4 if tier == 'quick' else 40):
+    for k in range(12 if tier == 'quick' else 40):
         n = rng.randint(1, 4)
         c = mk(ck, cfg, {'kind': 'mix', 'seed': rng.randint(1, 99)}, n, (64, 64), oracles={'decode': 0, 'parse': 0, 'order': 0}); c['program'] = c14_program(rng, n, 0, True); c['_gen'] = None; cases.append(c)
     if tier != 'quick':
@@ -831,9 +860,9 @@ def check_c17(tier, seed):
         nm = rng.choice(sorted(st)); s = st[nm]
         return {'kind': 'dec', 'stream': s['path'], 'w': s['w'], 'h': s['h'], 'bd': s['bd'], 'threads': rng.choice([1, 1, 2, 4]), 'delay': rng.choice([0, 0, 200, 1500, 6000]), '_stream': nm, 'sessions': rng.choice([1, 1, 2])}
     fams = []
-    nfam = 8 if tier == 'quick' else 48
+    nfam = 16 if tier == 'quick' else 48
     for k in range(nfam):
-        mix = ['ee', 'ed', 'dd', 'ee', 'eed', 'edd', 'ee', 'ed'][k % 8] if st else 'ee'
+        mix = ['ee', 'ed', 'dd', 'ee', 'eed', 'edd', 'ee', 'ed', 'ed', 'ee', 'eed', 'ed'][k % 12] if st else 'ee'
         m = len(mix); picks = rng.sample(pool, mix.count('e')); insts = []
         for (cfgo, wh) in picks:
             n = rng.randint(2, 6)
